@@ -112,9 +112,9 @@ theorem lemma_bindMultiAll_phases (P : Params) (cfg : Cfg) (fs : List Fld) (init
 theorem lemma_runAll (P : Params) (hP : FloatSane P) (cfg : Cfg) (fs : List Fld) (hg : inGrammarFs fs = true) :
     ∀ (phs : List Phase), (∀ ph ∈ phs, srcOK ph.src = true) → ∀ ivs : List Val, wts fs ivs = true →
     match runPhasesAll P cfg fs phs (.struct ivs) with
-    | .done _ es => ∀ e ∈ es, ∃ ph ∈ phs, PhaseErr P cfg fs ph e
+    | .done v es => (∃ rvs, v = .struct rvs ∧ wts fs rvs = true) ∧ ∀ e ∈ es, ∃ ph ∈ phs, PhaseErr P cfg fs ph e
     | .panic => False
-  | [], _, ivs, _ => by simp [runPhasesAll]
+  | [], _, ivs, hw => by simp [runPhasesAll, hw]
   | ph :: rest, hs, ivs, hw => by
     have hw' : wts (phaseFs fs ph) ivs = true := by
       unfold phaseFs; split
@@ -143,10 +143,11 @@ theorem lemma_runAll (P : Params) (hP : FloatSane P) (cfg : Cfg) (fs : List Fld)
       | done v2 es2 =>
         rw [hrr] at ih
         simp only [OutAll.prepend]
+        refine ⟨ih.1, ?_⟩
         intro e he
         rcases List.mem_append.1 he with he | he
         · exact ⟨ph, by simp, ⟨ivs, hb e he⟩⟩
-        · obtain ⟨p, hp, hpe⟩ := ih e he
+        · obtain ⟨p, hp, hpe⟩ := ih.2 e he
           exact ⟨p, by simp [hp], hpe⟩
 
 end Rivaas.Bind
